@@ -7,8 +7,8 @@ import itertools
 from core import simcase as S
 
 ID = "C01"
-LEAN_MODULES = ["AcnProofs.C01", "AcnProofs.Lemmas.EventCorePilots", "AcnProofs.Lemmas.EventCoreSimFail", "AcnProofs.Lemmas.EventCoreStep",
-                "AcnProofs.Lemmas.CodeTieQueue"]
+LEAN_MODULES = ["AcnProofs.C01", "AcnProofs.Lemmas.EventCorePilots", "AcnProofs.Lemmas.EventCoreSimFail", "AcnProofs.Lemmas.EventCoreStep"]
+TIE_MODULES = ["AcnProofs.Lemmas.CodeTieQueue"]
 DRIVER = "drv_C01"
 REQUIRED_THEOREMS = [
     "Acn.C01.prec_order", "Acn.C01.keyLt_strictWeakOrder", "Acn.C01.cfg0_valid", "Acn.C01.init_Inv",
